@@ -2167,3 +2167,60 @@ def rule_dispatch_table_by_evaluation(ctx, rep: Report, rid="I14"):
         return
     rep.add(rid, "dispatch table:labels 0..n-1 once each, every case runs the routine named with its id, every routine has one case", not v,
             f"mex_function run on the id map of the sample declarations: {v[:3]}: a call from a .m file reaches another routine than the one generated for it, or none", loc)
+
+
+# ------------------------------------------------------------------------------------------ T22 / I15 one file per free function, across re-opened namespaces
+def rule_one_file_per_function_across_blocks(ctx, rep: Report, rid="T22"):
+    """A namespace may be written in several blocks (and every interface file of a module re-opens the module's namespace).  The
+    overloads of one free function then still belong into ONE `.m` file: a second file of the same path, produced for the second
+    block, overwrites the first, and the ids of the overloads it held keep their `case` and routine but lose every call site.
+    Decided by running wrap_namespace (the analyser's own interpreter) on a namespace written in two blocks, with overloads of one
+    function in both and another function in one of them, and reading the list of files the run collected."""
+    from .rules_matlab import SampleObj, _PathEval, _Raised, mini_exec, program_classes
+    ci, prog = mw(ctx)
+    fn = prog.method("MatlabWrapper", "wrap_namespace")
+    loc = f"{ci.mod.rel}:{fn.lineno}"
+    methods = _all_methods(prog, ci)
+    classes = program_classes(prog, ["ArgumentList", "Argument", "MatlabWrapper", "Typename", "Type", "ReturnType"])
+    me, cls, statics, meths, funcs = _emitter_samples(ctx)
+    root = SampleObj(__kind__="Namespace", name="", parent="", full_namespaces=lambda: [""])
+
+    def block(fs):
+        b = SampleObj(__kind__="Namespace", name="ns", parent=root, full_namespaces=lambda: ["", "ns"], content=list(fs))
+        for f_ in fs:
+            f_["parent"] = b
+        return b
+    scale = [f_ for f_ in funcs if f_["name"] == "scale"]
+    other = [f_ for f_ in funcs if f_["name"] == "clear"]
+    if len(scale) < 3 or not other:
+        raise AnalysisError(f"{rep.prop}/{rid}: the sample free functions changed")
+    root["content"] = [block(scale[:1] + other), block(scale[2:3])]
+    me["content"], me["includes"] = [], []
+    me.setdefault("wrapper_file_headers", "// headers")
+    ps = func_params(fn)
+    env = dict(zip(ps, [me, root, True]))
+    try:
+        mini_exec(fn, _with_templates(ctx, env), budget=400000, methods=methods, classes=classes)
+    except (_PathEval.Unknown, _Raised, TypeError, KeyError, IndexError, AttributeError) as ex:
+        raise AnalysisError(f"{rep.prop}/{rid}: wrap_namespace could not be evaluated on the sample namespace ({str(ex)[:70]})")
+
+    def flat(c, pre=""):
+        out = []
+        for x in c:
+            if isinstance(x, (list, tuple)) and len(x) == 2 and isinstance(x[0], str) and isinstance(x[1], str):
+                out.append(pre + x[0])
+            elif isinstance(x, (list, tuple)) and len(x) == 2 and isinstance(x[0], str) and isinstance(x[1], list):
+                out += flat(x[1], pre + x[0] + "/")
+            elif isinstance(x, list):
+                out += flat(x, pre)
+        return out
+    files = flat(me.get("content") or [])
+    rep.units["files_of_the_two_block_namespace"] = files
+    twice = sorted({f_ for f_ in files if files.count(f_) > 1})
+    missing = [f_ for f_ in ("+ns/scale.m", "+ns/clear.m") if f_ not in files]
+    rep.add(rid, "free functions:every function of a re-opened namespace gets its file", not missing,
+            f"`namespace ns {{ double scale(double x); void clear(); }} namespace ns {{ double scale(double x, ns::K k, double w); }}` collects the files {files}: "
+            f"{missing} missing", loc)
+    rep.add(rid, "free functions:one file per name across the blocks of a re-opened namespace", not twice,
+            f"`namespace ns {{ double scale(double x); void clear(); }} namespace ns {{ double scale(double x, ns::K k, double w); }}` collects the files {files}: "
+            f"{twice} written twice - the later text replaces the earlier one and the ids of the overloads it held have no call site left", loc)
